@@ -447,6 +447,9 @@ impl<'a> TxView<'a> {
 pub struct Ctx<'a> {
     pub w: &'a World,
     pub k: &'a Knobs,
+    /// reference inputs whose reference script the history never declared to the builder (listed with
+    /// the size-less `add_reference_input` only): the builder cannot be blamed for not charging them
+    pub undeclared_ref_scripts: BTreeSet<(Vec<u8>, u64)>,
 }
 
 impl<'a> Ctx<'a> {
@@ -576,6 +579,9 @@ pub fn min_fee(tx: &TxView, cx: &Ctx) -> Result<BigInt, Fail> {
         let mut ins = tx.inputs_of(0)?;
         ins.extend(tx.inputs_of(18)?);
         for i in ins {
+            if cx.undeclared_ref_scripts.contains(&i) {
+                continue;
+            }
             if let Some(u) = cx.utxo(&i) {
                 if let Some(s) = u.script_ref {
                     total += match &cx.w.scripts[s as usize] {
